@@ -3,31 +3,31 @@ import AthlibVerif.Model.HJ
 namespace AthlibVerif.Drv
 open AthlibVerif.HJ
 
-def trialOf : String → Option Trial
+def hjTrialOf : String → Option Trial
   | "o" => some .o | "x" => some .x | "p" => some .p | "r" => some .r | _ => none
-def showTrial : Trial → String | .o => "o" | .x => "x" | .p => "-" | .r => "r"
-def showPhase : Phase → String
+def hjShowTrial : Trial → String | .o => "o" | .x => "x" | .p => "-" | .r => "r"
+def hjShowPhase : Phase → String
   | .scheduled => "scheduled" | .started => "started" | .jumpoff => "jumpoff" | .won => "won"
   | .finished => "finished" | .drawn => "drawn"
-def showOutcome : Outcome → String | .ok => "ok" | .rule => "rule" | .key => "key" | .assert => "assert"
+def hjShowOutcome : Outcome → String | .ok => "ok" | .rule => "rule" | .key => "key" | .assert => "assert"
 
-def showOp : Op → String
-  | .add b => s!"a{b}" | .bar h => s!"b{h}" | .trial b t => s!"{showTrial t}{b}"
+def hjShowOp : Op → String
+  | .add b => s!"a{b}" | .bar h => s!"b{h}" | .trial b t => s!"{hjShowTrial t}{b}"
 
 /-- `trials`: (bib, bar at that time, letter) derived from the log -/
 def trialsOf (log : List Op) : List String :=
   (log.foldl (fun (acc : List String × Int) op => match op with
     | .bar h => (acc.1, h)
-    | .trial b t => (acc.1 ++ [s!"{b}@{acc.2}{showTrial t}"], acc.2)
+    | .trial b t => (acc.1 ++ [s!"{b}@{acc.2}{hjShowTrial t}"], acc.2)
     | .add _ => acc) ([], 0)).1
 
-/-- the observable snapshot, same canonical text as `tools/hj_common.snap` -/
-def snap (c : Comp) : String :=
+/-- the observable snapshot, same canonical text as `tools/hj_common.hjSnap` -/
+def hjSnap (c : Comp) : String :=
   let js := c.jumpers.map (fun j =>
     let pl := match j.bestIdx with | some _ => toString j.place | none => "-"
-    s!"{j.bib}:{pl}:{j.best}:{"/".intercalate (j.card.map (fun l => String.join (l.map showTrial)))}")
+    s!"{j.bib}:{pl}:{j.best}:{"/".intercalate (j.card.map (fun l => String.join (l.map hjShowTrial)))}")
   let rem := ",".intercalate ((c.jumpers.filter (fun j => !j.eliminated)).map (fun j => toString j.bib))
-  s!"{showPhase c.phase}|{",".intercalate (c.heights.map toString)}|{";".intercalate js}|{rem}|{" ".intercalate (c.log.map showOp)}|{",".intercalate (trialsOf c.log)}"
+  s!"{hjShowPhase c.phase}|{",".intercalate (c.heights.map toString)}|{";".intercalate js}|{rem}|{" ".intercalate (c.log.map hjShowOp)}|{",".intercalate (trialsOf c.log)}"
 
 /-- driver state: the current competition and a stack of saved ones (`push` / `pop`) -/
 structure HJState where
@@ -38,13 +38,13 @@ def handleHJ1 (c : Comp) (args : List String) : Comp × String :=
   match args with
   | ["new"] => ({}, "new")
   | ["add", b] => match b.toNat? with
-    | some b => let (c', o) := step c (.add b); (c', s!"{showOutcome o}|{snap c'}")
+    | some b => let (c', o) := step c (.add b); (c', s!"{hjShowOutcome o}|{hjSnap c'}")
     | none => (c, "bad-op")
   | ["bar", h] => match h.toInt? with
-    | some h => let (c', o) := step c (.bar h); (c', s!"{showOutcome o}|{snap c'}")
+    | some h => let (c', o) := step c (.bar h); (c', s!"{hjShowOutcome o}|{hjSnap c'}")
     | none => (c, "bad-op")
-  | ["trial", b, t] => match b.toNat?, trialOf t with
-    | some b, some t => let (c', o) := step c (.trial b t); (c', s!"{showOutcome o}|{snap c'}")
+  | ["trial", b, t] => match b.toNat?, hjTrialOf t with
+    | some b, some t => let (c', o) := step c (.trial b t); (c', s!"{hjShowOutcome o}|{hjSnap c'}")
     | _, _ => (c, "bad-op")
   | _ => (c, "bad-op")
 
